@@ -58,8 +58,8 @@ fn gen_case(c: &mut dyn Choices, small: bool) -> Case {
   if !small {
     policy = *c.one_of(&[0u8, 0, 1, 2]);
     if c.pick(8) == 7 {
-      let m = 64 + c.pick(97);
-      let alpha = *c.one_of(&[30usize, 12, 4]);
+      let m = crate::ast::pick_size(c, 64, 97, &[260, 520]);
+      let alpha = *c.one_of(&[30usize, 12, 4, 100, 300]);
       let tail: Vec<Ev> = script.iter().skip_while(|e| !e.is_terminal()).cloned().collect();
       script = gen_long_items(c, m, alpha).into_iter().map(Ev::N).collect();
       script.extend(tail);
